@@ -153,15 +153,54 @@ def check(rep, cases, proofs_ok):
                                 "differs from the canonical LR(1) automaton"))
     # Tie A for the construction: whole table vs the Lean model `Table.build` (kind impl!=model, replay = the grammar)
     n_table = tie.report(rep, lambda c: c.describe(), min(3, len(failures)))
+    n_table += compiles_tie(rep, cases)
     if not failures and not n_table and not proofs_ok:
         rep.violation({"why": f"Lean obligations of {PROP_MODULE} no longer check",
                        "obligations": [o for o in rep.obligations if not o[1]]}, no_input=True)
     rep.counters["oracle_failures"] = len(failures)
 
 
+def compiles_tie(rep, cases, limit=450):
+    """the consequence clauses speak of what COMPILES: the real `Settings::process_grammar` in LR mode (vdyn job C) must
+    report conflicts exactly when the table of that type (dumped with every candidate kept) has a cell with more than one
+    action, for all three table types - the rejection lives in `generate_parser`, after the table is built."""
+    from common import run_vdyn, hx
+    # the LR-mode table of the same type (LR mode resolves shift against EMPTY-reduce by default, GLR keeps both)
+    sel = [lf.Case(c.text, ["LR"] + list(c.settings[1:]), [], gram=None, tag="bnf") for c in cases if c.dump is not None]
+    sel.sort(key=lambda c: (c.settings[1] != "LALR_RN", len(c.text)))
+    sel = sel[:3 * limit]
+    lf.run_cases(sel, model=False)
+    sel = [c for c in sel if c.dump is not None]
+    confl = {id(c): tp.parse_dump(c.dump)["conflicts"] for c in sel}
+    sel.sort(key=lambda c: (confl[id(c)] == 0, c.settings[1] != "LALR_RN", len(c.text)))
+    half = limit // 2
+    sel = sel[:half] + [c for c in sel[half:] if confl[id(c)] == 0][:half]
+    if not sel:
+        return 0
+    groups = [["C G F " + " ".join(c.settings) + " " + hx(c.text)] for c in sel]
+    answers = run_vdyn(groups, tag="c04-compiles")
+    bad = []
+    for c, a in zip(sel, answers):
+        a = a[0]
+        got_err, got_ok = a.startswith("compile err conflicts"), a.startswith("compile ok")
+        rep.count("compiles_tie:" + c.settings[1] + ":" + ("conflicts-reported" if got_err else "compiled" if got_ok else "other"))
+        if (got_err or got_ok) and got_err != (confl[id(c)] > 0):
+            bad.append((c, a))
+    rep.counters["compiles_tie_compared"] = len(sel)
+    rep.counters["compiles_tie_failures"] = len(bad)
+    for c, a in sorted(bad, key=lambda x: len(x[0].text))[:max(0, 3 - len(rep.violations))]:
+        d = c.describe()
+        rep.violation(dict(d, kind="impl!=oracle", tag="compiles",
+                           why=("LR mode, table type %s: the table has %d unresolved conflict(s) but the grammar compiles (an ambiguous "
+                                "grammar compiles without any disambiguation)" % (c.settings[1], confl[id(c)])) if confl[id(c)] else
+                               "LR mode, table type %s: the compiler reports conflicts although the table of that type has none" % c.settings[1],
+                           impl=a[:200]))
+    return len(bad)
+
+
 def replay(rep, path):
     p = json.load(open(path))
     build_harness()
-    c = lf.Case(p["grammar"], p["settings"].split(" "), [], gram=None)
+    c = lf.Case(p["grammar"], ["GLR"] + p["settings"].split(" ")[1:], [], gram=None)
     lf.run_cases([c], extra_requests=extra)
     check(rep, [c], True)
